@@ -1,5 +1,6 @@
 // Codec commands: schema dump, generic metadata-driven message build / encode / decode / clone / copy / move.
 #include "common.hpp"
+#include <functional>
 #include <memory>
 
 using namespace FIX8;
@@ -359,6 +360,43 @@ static Reg r_build("build", [](std::istringstream& is) {
 	}
 	if (cl) enc_into(j, "clone", cl.get());
 	if (cp) enc_into(j, "copy", cp.get());
+	// reset:<seed>: decode the encoding, replace about a third of the fields (every part, group elements included) by copies of themselves through add_field, encode
+	{
+		const size_t at(("," + opss + ",").find(",reset:"));
+		if (encok && at != std::string::npos)
+		{
+			unsigned long long st(strtoull(("," + opss).c_str() + at + 7, nullptr, 10) * 2654435761ull + 12345);
+			auto pick = [&st] { st = st * 6364136223846793005ull + 1442695040888963407ull; return (st >> 33) % 3 == 0; };
+			try
+			{
+				std::unique_ptr<Message> d(Message::factory(ctx, enc, false, false));
+				unsigned n(0);
+				std::function<void(MessageBase *, int)> walk = [&](MessageBase *mb, int depth) {
+					std::vector<BaseField *> sel;
+					const Presence& p(mb->get_fp().get_presence());
+					for (const auto& pp : mb->get_positions())
+					{
+						const unsigned short tag(pp.second->get_tag());
+						if (tag == 8 || tag == 9 || tag == 35 || tag == 10) continue;
+						Presence::const_iterator it(p.find(tag));
+						if (it == p.end()) continue;
+						if (it->_field_traits.has(FieldTrait::group))
+						{
+							if (GroupBase *gb = mb->find_group(tag))
+								for (unsigned i(0); i < gb->size() && depth < 32; ++i) walk(gb->get_element(i), depth + 1);
+							continue;
+						}
+						if (pick()) sel.push_back(pp.second);
+					}
+					for (BaseField *bf : sel) { mb->add_field(bf->copy()); ++n; }
+				};
+				walk(d->Header(), 0); walk(d.get(), 0); walk(d->Trailer(), 0);
+				j.k("reset_n").num(n);
+				enc_into(j, "reset", d.get());
+			}
+			catch (...) { j.k("reset").raw(describe_exception()); }
+		}
+	}
 	// the same transfers with a DECODED message as the source (shallow-created by the factory: e.g. a zero count field has no group object behind it)
 	if (encok && has("dclone"))
 	{
